@@ -124,6 +124,11 @@ package marbl
 //@        as(req.Body, *bodyLogger).s == s && as(req.Body, *bodyLogger).id == id && as(req.Body, *bodyLogger).mt == Request
 //@   ensures[pseudo-headers-first] nFrames >= old(nFrames) + 8 && result == nil
 //@   at call all of sendHeader before assert[every-header-frame-of-a-request-is-typed-request] arg1 == Request
+//@   at call 0 of sendHeader before assert[method-pseudo-header] arg2 == ":method" && arg3 == req.Method
+//@   at call 1 of sendHeader before assert[scheme-pseudo-header] arg2 == ":scheme" && arg3 == req.URL.Scheme
+//@   at call 2 of sendHeader before assert[authority-pseudo-header-is-the-target-authority-of-the-request] arg2 == ":authority" && arg3 == req.URL.Host
+//@   at call 4 of sendHeader before assert[query-pseudo-header] arg2 == ":query" && arg3 == req.URL.RawQuery
+//@   at call 5 of sendHeader before assert[proto-pseudo-header] arg2 == ":proto" && arg3 == req.Proto
 //@   at call 0 of Map after set hdrFrames0 = hdrFrames
 //@   at call 9 of sendHeader before set hdrFrames = upd(hdrFrames, arg2, hdrFrames[arg2] + 1)
 //@   ensures[one-header-frame-per-header-value] forall q string :: has(hdrMap, q) ==> hdrFrames[q] - hdrFrames0[q] == len(hdrMap[q])
@@ -140,6 +145,8 @@ package marbl
 //@        as(res.Body, *bodyLogger).s == s && as(res.Body, *bodyLogger).id == id && as(res.Body, *bodyLogger).mt == Response
 //@   ensures[pseudo-headers-first] nFrames >= old(nFrames) + 4 && result == nil
 //@   at call all of sendHeader before assert[every-header-frame-of-a-response-is-typed-response] arg1 == Response
+//@   at call 0 of sendHeader before assert[proto-pseudo-header] arg2 == ":proto" && arg3 == res.Proto
+//@   at call 2 of sendHeader before assert[reason-pseudo-header] arg2 == ":reason" && arg3 == res.Status
 //@   at call 0 of Map after set hdrFrames0 = hdrFrames
 //@   at call 5 of sendHeader before set hdrFrames = upd(hdrFrames, arg2, hdrFrames[arg2] + 1)
 //@   ensures[one-header-frame-per-header-value] forall q string :: has(hdrMap, q) ==> hdrFrames[q] - hdrFrames0[q] == len(hdrMap[q])
